@@ -43,12 +43,31 @@ def step_cpp_types(cppdir):
     return out
 
 
-def manual_copy_source(pkg, ns, types):
+def manual_copy_source(pkg, ns, types, with_ndjson=True):
     """Per protocol a hand-written copy loop (binary -> binary) that reads stream steps into pre-sized vectors ("pzb": the
     vector has size == capacity == c on entry, as `std::vector<T> batch(n)` gives) or into a fresh object per item ("frb")."""
     out = []
     for p in pkg.protocols:
+        # "ebb" / "ebn": every item is read into memory first, then written through the batch overload in batches of c items with
+        # an empty batch before the first, after every batch and after the last one ("a producer that flushes whatever it has")
+        out.append("template <class W> static void manual_eb_%s(std::istream& in, W& w, size_t c) {" % p.name)
+        out.append("  %s::binary::%sReader r(in);" % (ns, p.name))
+        for sn, st in p.steps:
+            cn = cpp_name(sn)
+            T = types[(p.name, cn)]
+            if st[0] == "stream":
+                out.append("  { std::vector<%s> all; while (true) { %s v{}; if (!r.Read%s(v)) break; all.push_back(std::move(v)); }" % (T, T, cn))
+                out.append("    std::vector<%s> none; w.Write%s(none); size_t i = 0;" % (T, cn))
+                out.append("    while (i < all.size()) { size_t n = std::min(c, all.size() - i); std::vector<%s> b(all.begin() + i, all.begin() + i + n); w.Write%s(b); w.Write%s(none); i += n; }" % (T, cn, cn))
+                out.append("    w.End%s(); }" % cn)
+            else:
+                out.append("  { %s v{}; r.Read%s(v); w.Write%s(v); }" % (T, cn, cn))
+        out.append("  r.Close(); w.Close();")
+        out.append("}")
         out.append("static void manual_%s(const std::string& mode, std::istream& in, std::ostream& out, size_t c) {" % p.name)
+        out.append('  if (mode == "ebb") { %s::binary::%sWriter w(out); manual_eb_%s(in, w, c); return; }' % (ns, p.name, p.name))
+        if with_ndjson:
+            out.append('  if (mode == "ebn") { %s::ndjson::%sWriter w(out); manual_eb_%s(in, w, c); return; }' % (ns, p.name, p.name))
         out.append("  %s::binary::%sReader r(in); %s::binary::%sWriter w(out);" % (ns, p.name, ns, p.name))
         for sn, st in p.steps:
             cn = cpp_name(sn)
@@ -71,7 +90,8 @@ def driver_source(pkg, with_ndjson=True, extra="", ns=None, manual_types=None):
     out += ["#include <iostream>", "#include <sstream>", "#include <string>", "#include <functional>", "#include <map>",
             "#include <vector>", "#include <cstdio>", "#include <cstring>", ""]
     if manual_types:
-        out.append(manual_copy_source(pkg, ns, manual_types))
+        out.append(manual_copy_source(pkg, ns, manual_types, with_ndjson))
+        out.append("#include <algorithm>")
     out.append("using Fn = std::function<void(const std::string&, std::istream&, std::ostream&, size_t)>;")
     out.append("static std::map<std::string, Fn> table;")
     for p in pkg.protocols:
@@ -80,7 +100,7 @@ def driver_source(pkg, with_ndjson=True, extra="", ns=None, manual_types=None):
         out.append("static void run_%s(const std::string& mode, std::istream& in, std::ostream& out, size_t bs) {" % p.name)
         out.append("  (void)bs;")
         if manual_types:
-            out.append('  if (mode == "pzb" || mode == "frb") { manual_%s(mode, in, out, bs); return; }' % p.name)
+            out.append('  if (mode == "pzb" || mode == "frb" || mode == "ebb" || mode == "ebn") { manual_%s(mode, in, out, bs); return; }' % p.name)
         out.append('  if (mode == "b2b") { %s::binary::%sReader r(in); %s::binary::%sWriter w(out); r.CopyTo(w%s); r.Close(); w.Close(); }' % (ns, p.name, ns, p.name, args))
         for lbl, oldpkg in getattr(pkg, "versions", []):
             if any(op.name == p.name for op in oldpkg.protocols):
